@@ -30,3 +30,8 @@ theorem emod_sub_l (a b M : Int) : (a % M - b) % M = (a - b) % M := by
 theorem emod_sub_r (a b M : Int) : (a - b % M) % M = (a - b) % M := by
   rw [Int.sub_emod, Int.emod_emod_of_dvd _ (Int.dvd_refl M), ← Int.sub_emod]
 end Op2.GenTactics
+
+namespace Op2.GenTactics
+/-- `gen_guard_h h => tac`: as `gen_guard`, naming the hypothesis `flag = true` (for lemmas that use another lemma about the same function) -/
+macro "gen_guard_h " h:ident " => " t:tacticSeq : tactic => `(tactic| first | gen_fallback | (intro $h:ident; ($t)))
+end Op2.GenTactics
